@@ -1,10 +1,13 @@
 package props
 
 import (
-	"strings"
 	"bytes"
 	"context"
 	"fmt"
+	goat "github.com/avos-io/goat"
+	"google.golang.org/grpc/stats"
+	"io"
+	"strings"
 
 	"github.com/avos-io/goat/vh/env"
 	"github.com/avos-io/goat/vrt/explore"
@@ -43,6 +46,9 @@ func c01(tier string) []*explore.Scenario {
 	}
 	out = append(out, c01Payloads(po), c01Payloads(env.PipeOpts{Cap: 0}))
 	out = append(out, c01Seq(po), c01FailedWrite(2))
+	for _, kind := range []string{"Unary", "Bidi"} {
+		out = append(out, c01ReentrantStats(kind, "nested-call"), c01ReentrantStats(kind, "waits-for-other-call"))
+	}
 	// the shipped topologies: through a proxy and a demultiplexer (one Serve per client)
 	out = append(out, c16RPCFam("C01", "2unary", false, 1), c16RPCFam("C01", "2unary", true, 1), c16RPCFam("C01", "payloads", true, 0))
 	return out
@@ -178,6 +184,109 @@ func c01FailedWrite(bound int) *explore.Scenario {
 			checkUnary(b, "x", fam)
 			checkUnary(c, "y", fam)
 			finishDirect(d, w, true)
+		},
+	}
+}
+
+// reentrantSH is a client stats handler that, the first time it is shown an
+// event of each type, does something with the connection it belongs to.
+type reentrantSH struct {
+	seen map[string]bool
+	n    int
+	do   func(rpc int, event string)
+}
+
+type reentrantKey struct{}
+
+func (s *reentrantSH) TagRPC(ctx context.Context, _ *stats.RPCTagInfo) context.Context {
+	s.n++
+	return context.WithValue(ctx, reentrantKey{}, s.n)
+}
+func (s *reentrantSH) HandleRPC(ctx context.Context, st stats.RPCStats) {
+	name := strings.TrimPrefix(fmt.Sprintf("%T", st), "*stats.")
+	rpc, _ := ctx.Value(reentrantKey{}).(int)
+	if rpc == 1 && !s.seen[name] { // the first RPC tagged is the one whose events trigger something
+		s.seen[name] = true
+		s.do(rpc, name)
+	}
+}
+func (s *reentrantSH) TagConn(ctx context.Context, _ *stats.ConnTagInfo) context.Context { return ctx }
+func (s *reentrantSH) HandleConn(context.Context, stats.ConnStats)                       {}
+
+// c01ReentrantStats: a client stats handler re-enters its own connection from
+// HandleRPC. "nested-call": at the first event of every type of the outer RPC
+// it makes a nested unary call. "waits-for-other-call": it is slow - at the
+// outer RPC's InHeader it waits until ANOTHER caller's call, started meanwhile
+// on the same connection, has completed. Every call, outer, nested and
+// concurrent, gets its own reply.
+func c01ReentrantStats(kind, what string) *explore.Scenario {
+	fam := "C01/reentrant-stats"
+	return &explore.Scenario{
+		Name: fmt.Sprintf("C01/reentrant-stats/%s/%s", kind, what), Family: fam, Prop: "C01", Bound: 0,
+		Run: func() {
+			w := env.NewWorld()
+			var d *env.Direct
+			nested := map[string]*env.Rec{}
+			otherDone := make(chan struct{})
+			waiting := false
+			sh := &reentrantSH{seen: map[string]bool{}}
+			sh.do = func(rpc int, event string) {
+				switch what {
+				case "nested-call":
+					r := w.Rec("n-"+event, "Unary")
+					nested[event] = r
+					w.CallUnary(d.CC, context.Background(), r, "x")
+				case "waits-for-other-call":
+					if event == "InHeader" {
+						waiting = true
+						<-otherDone
+					}
+				}
+			}
+			d = env.NewDirect(w, env.DirectOpts{Pipe: env.PipeOpts{Cap: 64}, DialOpts: []goat.DialOption{goat.WithStatsHandler(sh)}})
+			vsched.Settle()
+			outer := w.Rec("outer", kind)
+			other := w.Rec("other", "Unary")
+			vsched.GoNamed("caller-outer", func() {
+				if kind == "Unary" {
+					w.CallUnary(d.CC, context.Background(), outer, "x")
+				} else {
+					streamCase{"Bidi", "pingpong", "echo", 1, 0, 0}.runCaller(w, d.CC, context.Background(), outer)
+				}
+			})
+			vsched.Quiesce()
+			if what == "waits-for-other-call" {
+				if !waiting {
+					vsched.Fail(fam+"|harness", "the stats handler never saw the outer call's InHeader")
+				}
+				vsched.GoNamed("caller-other", func() {
+					w.CallUnary(d.CC, context.Background(), other, "y")
+					close(otherDone)
+				})
+				vsched.Quiesce()
+			}
+			vsched.Obs("%s %s: outer done=%v nested=%d", kind, what, outer.CDone, len(nested))
+			if what == "waits-for-other-call" {
+				if !other.CDone {
+					vsched.Fail(fam+"|hang", "while a stats handler is busy with one call's InHeader event, another caller's unary call on the connection cannot complete; threads: %s", threadList())
+				} else {
+					checkUnary(other, "y", fam)
+				}
+			}
+			if kind == "Unary" {
+				checkUnary(outer, "x", fam)
+			} else if !outer.CDone || outer.CErr != io.EOF || len(outer.CRecv) != 1 {
+				vsched.Fail(fam+"|hang", "the outer stream did not complete: %s; threads: %s", outer.Summary(), threadList())
+			}
+			for ev, r := range nested {
+				if !r.CDone || r.CErr != nil || r.CReply != "R:"+r.Tag+"|x" {
+					vsched.Fail(fam+"|hang", "the call made from the stats handler at event %s: done=%v err=%v reply=%q; threads: %s", ev, r.CDone, r.CErr, r.CReply, threadList())
+				}
+			}
+			if what == "nested-call" && len(nested) < 4 {
+				vsched.Fail(fam+"|harness", "only %d event types were seen", len(nested))
+			}
+			finishDirect(d, w, false)
 		},
 	}
 }
